@@ -13,6 +13,7 @@ def files():
     G.add_method(svc, "Import", ".acme.lab.v1.Req", ".acme.lab.v1.Resp", http=("post", "/v1/{name=p/*}:import"), body="*")
     G.add_method(svc, "CreateChannel", ".acme.lab.v1.Req", ".acme.lab.v1.Resp", http=("post", "/v1/{name=p/*}:cc"), body="*")
     G.add_method(svc, "Drop", ".acme.lab.v1.Req", ".google.protobuf.Empty", http=("delete", "/v1/{name=p/*}"))
+    G.add_method(svc, "Purge", ".acme.lab.v1.Req", ".google.protobuf.Empty", http=("delete", "/v1/{name=p/*}:purge"))      # void, no retry policy
     G.add_method(svc, "Ping", ".acme.lab.v1.Req", ".acme.lab.v1.Empty", http=("post", "/v1/{name=p/*}:ping"), body="*")
     G.add_method(svc, "Watch", ".acme.lab.v1.Req", ".acme.lab.v1.Resp", http=("get", "/v1/{name=p/*}:watch"), server_streaming=True)
     G.add_method(svc, "Upload", ".acme.lab.v1.Req", ".acme.lab.v1.Resp", client_streaming=True)
@@ -30,12 +31,15 @@ def scenarios():
     from google.iam.v1 import iam_policy_pb2, policy_pb2
     from google.protobuf import empty_pb2
     failures, cases = [], 0
-    api, res = G.generate(files(), "autogen-snippets=false", extra_dep_modules=(iam_policy_pb2,))
+    # Drop (void) and Fetch carry a default retry policy: the asyncio stub is then wrapped in AsyncRetry's coroutine function
+    retry_cfg = {"methodConfig": [{"name": [{"service": "acme.lab.v1.Lab", "method": "Drop"}, {"service": "acme.lab.v1.Lab", "method": "Fetch"}], "timeout": "30s",
+                                   "retryPolicy": {"maxAttempts": 3, "initialBackoff": "0.01s", "maxBackoff": "0.02s", "backoffMultiplier": 2, "retryableStatusCodes": ["UNAVAILABLE"]}}]}
+    api, res = G.generate(files(), "autogen-snippets=false", extra_dep_modules=(iam_policy_pb2,), retry_config=retry_cfg)
     with G.materialised(res):
         from acme import lab_v1
         from acme.lab_v1.services.lab.transports import LabGrpcTransport, LabGrpcAsyncIOTransport
         log = []
-        replies = {"Drop": empty_pb2.Empty(), "Ping": lab_v1.Empty(marker="pong"), "Policy": policy_pb2.Policy(version=3)}
+        replies = {"Drop": empty_pb2.Empty(), "Purge": empty_pb2.Empty(), "Ping": lab_v1.Empty(marker="pong"), "Policy": policy_pb2.Policy(version=3)}
 
         def ser(x):
             return type(x).serialize(x) if hasattr(type(x), "serialize") else x.SerializeToString()
@@ -48,13 +52,15 @@ def scenarios():
                 return iter([deser(ser(r)), deser(ser(r))])
             return deser(ser(r))
         client = lab_v1.LabClient(transport=LabGrpcTransport(channel=G.fake_channel(handler), credentials=AnonymousCredentials()))
-        aclient = lab_v1.LabAsyncClient(transport=LabGrpcAsyncIOTransport(channel=G.fake_aio_channel(handler), credentials=AnonymousCredentials()))
-        unary = [("fetch", "Fetch"), ("import_", "Import"), ("create_channel", "CreateChannel"), ("drop", "Drop"), ("ping", "Ping")]
+        achan = G.fake_aio_channel(handler)
+        aclient = lab_v1.LabAsyncClient(transport=LabGrpcAsyncIOTransport(channel=achan, credentials=AnonymousCredentials()))
+        unary = [("fetch", "Fetch"), ("import_", "Import"), ("create_channel", "CreateChannel"), ("drop", "Drop"), ("purge", "Purge"), ("ping", "Ping")]
         for pyname, rpc in unary:
             for form, req in (("message", lab_v1.Req(name="p/1", n=7)), ("dict", {"name": "p/1", "n": 7}), ("omitted", None)):
                 for which, cl in (("sync", client), ("async", aclient)):
                     cases += 1
                     log.clear()
+                    del achan.completed[:]
                     try:
                         out = getattr(cl, pyname)(request=req) if req is not None else getattr(cl, pyname)()
                         if which == "async":
@@ -62,10 +68,13 @@ def scenarios():
                     except Exception as e:      # noqa
                         failures.append({"case": f"{which} {pyname}({form})", "error": repr(e)[:200]})
                         continue
+                    if which == "async" and achan.completed != [("unary_unary", f"/acme.lab.v1.Lab/{rpc}")]:
+                        failures.append({"case": f"{which} {pyname}({form})", "what": "the call was not awaited exactly once before the client method returned "
+                                         "(its reply / status never reaches the caller)", "awaited_calls": repr(achan.completed)})
                     want_req = lab_v1.Req(name="p/1", n=7) if req is not None else lab_v1.Req()
                     if len(log) != 1 or log[0][0] != "unary_unary" or log[0][1] != f"/acme.lab.v1.Lab/{rpc}" or log[0][2] != lab_v1.Req.serialize(want_req):
                         failures.append({"case": f"{which} {pyname}({form})", "channel_log": repr(log)[:300], "expected_path": f"/acme.lab.v1.Lab/{rpc}"})
-                    exp = None if rpc == "Drop" else replies.get(rpc, lab_v1.Resp(note="re:" + rpc))
+                    exp = None if rpc in ("Drop", "Purge") else replies.get(rpc, lab_v1.Resp(note="re:" + rpc))
                     if (out is None) != (exp is None) or (exp is not None and out != exp):
                         failures.append({"case": f"{which} {pyname}({form})", "returned": repr(out)[:100], "server_sent": repr(exp)[:100]})
         # pb2 request/response from a dependency package
